@@ -137,7 +137,16 @@ def _returns_only_traversal(m) -> bool:
             if call_name(c) in ("append", "extend") and isinstance(c.func.value, ast.Name):
                 accs.add(c.func.value.id)
     rets = [r for r in ast.walk(m) if isinstance(r, ast.Return) and r.value is not None]
-    return bool(rets) and bool(accs) and all(isinstance(r.value, ast.Name) and r.value.id in accs for r in rets)
+    def derived(e) -> bool:
+        # the accumulator itself, or an order-preserving element-wise image of it
+        if isinstance(e, ast.Name):
+            return e.id in accs
+        if isinstance(e, ast.ListComp) and len(e.generators) == 1 and not e.generators[0].ifs:
+            return derived(e.generators[0].iter)
+        if isinstance(e, ast.Call) and u(e.func) in ("list", "tuple") and len(e.args) == 1 and not e.keywords:
+            return derived(e.args[0])
+        return False
+    return bool(rets) and bool(accs) and all(derived(r.value) for r in rets)
 
 
 def follow_local(fn, src):
